@@ -1389,6 +1389,53 @@ rbd_op(const char *id, char *dscript, char *sscript)
     lyd_free_all(a);
 }
 
+/* `rbp <dst script> <src script>`: two containers filled by rbs scripts, then lyd_dup_siblings(first instance of the second, first
+ * container, 0, &d): the copies go INTO a parent that may hold instances already (lyd_dup_r -> lyd_insert_node; the first_llist
+ * fast path of lyd_dup appends following copies without lyds_insert).  The copies get new serials in source order. */
+static void
+rbp_op(const char *id, char *dscript, char *sscript)
+{
+    const struct lysc_node *cont, *ll = rbs_schema(&cont);
+    struct lyd_node *a = NULL, *b = NULL, *d = NULL, *n, *it;
+    LY_ERR r;
+
+    if (!ll || lyd_new_inner(NULL, cont->module, cont->name, 0, &a) || lyd_new_inner(NULL, cont->module, cont->name, 0, &b)) {
+        lyd_free_all(a);
+        vp_reply(id, "err NoList");
+        return;
+    }
+    rbs_n = 0;
+    rbs_run(a, ll, dscript, 0);
+    rbs_run(b, ll, sscript, 0);
+    fprintf(stdout, "%s ok", id);
+    if (!lyd_child(b)) {
+        rbs_show(a, ll);
+    } else {
+        /* remember which nodes of `a` are old */
+        r = lyd_dup_siblings(lyd_child(b), (struct lyd_node_inner *)a, 0, &d);
+        if (r) {
+            fputs(" | R:DupFailed", stdout);
+        } else {
+            /* new serials: the copies in the order of their originals (equal values: copy k of value v <-> original k of value v) */
+            LY_LIST_FOR(lyd_child(b), it) {
+                int seen = 0, want = 0;
+                struct lyd_node *o2;
+                LY_LIST_FOR(lyd_child(b), o2) { if (o2 == it) break; if (!strcmp(lyd_get_value(o2), lyd_get_value(it))) want++; }
+                LY_LIST_FOR(lyd_child(a), n) {
+                    if (n->schema != ll || rbs_serial(n) >= 0 || strcmp(lyd_get_value(n), lyd_get_value(it))) continue;
+                    if (seen++ == 0) { if (rbs_n < 4096) rbs_tab[rbs_n++] = n; break; }
+                }
+                (void)want;
+            }
+            rbs_show(a, ll);
+        }
+    }
+    fputc('\n', stdout);
+    fflush(stdout);
+    lyd_free_all(a);
+    lyd_free_all(b);
+}
+
 static void
 rbm_op(const char *id, char *dscript, char *sscript)
 {
@@ -1470,6 +1517,16 @@ sib_main(void)
             cur = get_ctx(r.tok[5]);
             if (!cur) { vp_reply(id, "err BadSchema"); continue; }
             rbs_op(id, r.tok[6]);
+#else
+            vp_reply(id, "err NoWb");
+#endif
+            continue;
+        }
+        if (r.ntok == 8 && !strcmp(r.tok[1], "sib") && !strcmp(r.tok[2], "rbp")) {
+#ifdef SIB_WB
+            cur = get_ctx(r.tok[5]);
+            if (!cur) { vp_reply(id, "err BadSchema"); continue; }
+            rbp_op(id, r.tok[6], r.tok[7]);
 #else
             vp_reply(id, "err NoWb");
 #endif
